@@ -205,10 +205,17 @@ func c01Case(w *bufio.Writer, cr *rng, dir string, id int, o openOpts, lines []s
 					secs = append(secs, secWrite{off: p.off + int64(s), data: p.data[s:end], meta: s == 0 && p.off < 2*int64(o.ps)})
 				}
 			}
-			build := func(pick func(i int) bool) ([]byte, bool) {
+			build := func(pick func(i int) bool, tear int) ([]byte, bool) {
 				img := append([]byte{}, durable...)
 				metaFull := false
 				for i, s := range secs {
+					if s.meta && tear > 0 {
+						// a tear INSIDE the meta sector (finer than the property's sector granularity): a prefix of it persists
+						if tear < len(s.data) {
+							img = apply(img, s.off, s.data[:tear])
+						}
+						continue
+					}
 					if !pick(i) {
 						continue
 					}
@@ -228,28 +235,32 @@ func c01Case(w *bufio.Writer, cr *rng, dir string, id int, o openOpts, lines []s
 			type variant struct {
 				name string
 				pick func(i int) bool
+				tear int
 			}
-			vars := []variant{{"none", func(int) bool { return false }}, {"all", func(int) bool { return true }}}
+			vars := []variant{{"none", func(int) bool { return false }, 0}, {"all", func(int) bool { return true }, 0}}
 			nsec := len(secs)
 			for i := 0; i < nsec && i < 6; i++ {
 				i := i
-				vars = append(vars, variant{fmt.Sprintf("only%d", i), func(j int) bool { return j == i }},
-					variant{fmt.Sprintf("allbut%d", i), func(j int) bool { return j != i }})
+				vars = append(vars, variant{fmt.Sprintf("only%d", i), func(j int) bool { return j == i }, 0},
+					variant{fmt.Sprintf("allbut%d", i), func(j int) bool { return j != i }, 0})
 			}
 			for i, s := range secs {
 				if s.meta {
 					i := i
-					vars = append(vars, variant{"metaonly", func(j int) bool { return j == i }}, variant{"nometa", func(j int) bool { return j != i }})
+					vars = append(vars, variant{"metaonly", func(j int) bool { return j == i }, 0}, variant{"nometa", func(j int) bool { return j != i }, 0})
+					for _, t := range []int{8, 24, 48, 64, 72, 76} {
+						vars = append(vars, variant{fmt.Sprintf("metatear%d", t), func(j int) bool { return true }, t})
+					}
 				}
 			}
 			for v := 0; v < perPoint && nsec > 1; v++ {
 				seed := cr.next()
-				vars = append(vars, variant{fmt.Sprintf("rnd%x", seed&0xffff), func(j int) bool { return (seed>>(uint(j)%61))&1 == 1 != (j%7 == int(seed%7)) }})
+				vars = append(vars, variant{fmt.Sprintf("rnd%x", seed&0xffff), func(j int) bool { return (seed>>(uint(j)%61))&1 == 1 != (j%7 == int(seed%7)) }, 0})
 			}
 			var paths []string
 			var metas []bool
 			for vi, v := range vars {
-				img, metaFull := build(v.pick)
+				img, metaFull := build(v.pick, v.tear)
 				pth := fmt.Sprintf("%s.%d", work, vi)
 				_ = os.WriteFile(pth, img, 0600)
 				paths = append(paths, pth)
@@ -261,7 +272,7 @@ func c01Case(w *bufio.Writer, cr *rng, dir string, id int, o openOpts, lines []s
 				nimg++
 				if imgEvery > 0 && nimg%imgEvery == 0 {
 					// the child modified the file (follow-up transaction): rebuild the pristine image for the decoder
-					img, _ := build(v.pick)
+					img, _ := build(v.pick, v.tear)
 					kp := fmt.Sprintf("%s/c01_%d.img%d", dir, id, nimg)
 					_ = os.WriteFile(kp, img, 0600)
 					keep = fmt.Sprintf(" img=%s ps=%d", kp, o.ps)
